@@ -1,4 +1,4 @@
-import TxV.Core.Example
+import TxV.Core.Example2
 /-!
 # C01 — an exclusive method serves at most one active call per cycle
 
@@ -20,31 +20,31 @@ namespace TxV.Core
 
 variable {D : Design} {v : Val} {S : Sched} {run : Nat → Bool}
 
--- OBLIGATION c01_at_most_one_active : sentence 1, any scheduler, under driver-checked hypothesis Accepted D S (evaluated per extracted design by acceptedB / Bridge.staticOk; not proved from the executable elaborate) and under driver-checked hypothesis Cycle D v S run (evaluated per valuation by cycleEagerB / cycleRRB: ExclSem, ExclReady, method-run equations, scheduler facts): for every accepted design with unique call-site ids, every valuation and every run assignment satisfying the cycle facts (granted ⇒ ready∧runnable; cgr-neighbours never both granted), the list of active call sites (caller runs ∧ enable) of an exclusive method has length ≤ 1
+-- OBLIGATION c01_at_most_one_active : sentence 1, any scheduler, under hypothesis Accepted D S (PROVED from the executable model: Bridge.elaborate_static derives it from elaborate = ok and the executable order check; also evaluated per extracted design by Bridge.staticOk) and under driver-checked hypothesis Cycle D v S run (evaluated per valuation by cycleEagerB / cycleRRB: ExclSem, ExclReady, method-run equations, scheduler facts): for every accepted design with unique call-site ids, every valuation and every run assignment satisfying the cycle facts (granted ⇒ ready∧runnable; cgr-neighbours never both granted), the list of active call sites (caller runs ∧ enable) of an exclusive method has length ≤ 1
 theorem c01_at_most_one_active (hA : Accepted D S) (hC : Cycle D v S run) (hn : D.SitesNodup)
     {m : Nat} (hm : D.nonexcl m = false) : (activeSites D v run m).length ≤ 1 :=
   at_most_one_active hA hC hn hm
 
--- OBLIGATION c01_at_most_one_active_eager : sentence 1 under eager_deterministic_cc_scheduler (under driver-checked hypotheses Accepted, ExclSem, ExclReady, MethodRunEq, Eager — the last two are the equations the manager/scheduler emit, checked on the model's and the implementation's run signals): every run assignment solving the scheduler equations (schedulers.py:38-43) and the method-run equations (manager.py:550-555)
+-- OBLIGATION c01_at_most_one_active_eager : sentence 1 under eager_deterministic_cc_scheduler (under hypothesis Accepted (proved from the executable elaborate: Bridge.elaborate_static) and driver-checked per-cycle hypotheses ExclSem, ExclReady, MethodRunEq, Eager — the last two are the equations the manager/scheduler emit, checked on the model's and the implementation's run signals): every run assignment solving the scheduler equations (schedulers.py:38-43) and the method-run equations (manager.py:550-555)
 theorem c01_at_most_one_active_eager (hA : Accepted D S) (hs : ExclSem D v) (hr : ExclReady D v)
     (hm : MethodRunEq D v run) (he : Eager D v S run) (hn : D.SitesNodup)
     {m : Nat} (hx : D.nonexcl m = false) : (activeSites D v run m).length ≤ 1 :=
   at_most_one_active hA (Cycle.ofEager hA hs hr hm he) hn hx
 
--- OBLIGATION c01_at_most_one_active_rr : sentence 1 under trivial_roundrobin_cc_scheduler (under driver-checked hypotheses Accepted, CompOk, ExclSem, ExclReady, MethodRunEq, RoundRobin = C39's one-grant-per-component): every run assignment that grants only ready∧runnable requesters and at most one transaction per component `comp`, every cgr edge lying inside one component
+-- OBLIGATION c01_at_most_one_active_rr : sentence 1 under trivial_roundrobin_cc_scheduler (under hypothesis Accepted (proved from the executable elaborate: Bridge.elaborate_static) and driver-checked per-cycle hypotheses CompOk, ExclSem, ExclReady, MethodRunEq, RoundRobin = C39's one-grant-per-component): every run assignment that grants only ready∧runnable requesters and at most one transaction per component `comp`, every cgr edge lying inside one component
 theorem c01_at_most_one_active_rr {comp : Nat → Nat} (hA : Accepted D S) (hc : CompOk D S comp)
     (hs : ExclSem D v) (hr : ExclReady D v) (hm : MethodRunEq D v run)
     (he : RoundRobin D v comp run) (hn : D.SitesNodup)
     {m : Nat} (hx : D.nonexcl m = false) : (activeSites D v run m).length ≤ 1 :=
   at_most_one_active hA (Cycle.ofRoundRobin hc hs hr hm he) hn hx
 
--- OBLIGATION c01_active_unique : sentence 1 without the site-id hypothesis (under driver-checked hypotheses Accepted, Cycle): any two active call occurrences of an exclusive method are the same `Call` (same callee, ctrl path and site)
+-- OBLIGATION c01_active_unique : sentence 1 without the site-id hypothesis (under hypothesis Accepted (proved from the executable elaborate: Bridge.elaborate_static) and driver-checked per-cycle hypotheses Cycle): any two active call occurrences of an exclusive method are the same `Call` (same callee, ctrl path and site)
 theorem c01_active_unique (hA : Accepted D S) (hC : Cycle D v S run) {m b1 b2 : Nat} {c1 c2 : Call}
     (hm : D.nonexcl m = false) (h1 : ActiveSite D v run b1 c1) (hc1 : c1.callee = m)
     (h2 : ActiveSite D v run b2 c2) (hc2 : c2.callee = m) : c1 = c2 :=
   active_unique hA hC hm h1 hc1 h2 hc2
 
--- OBLIGATION c01_no_joint_run : sentence 2 (under driver-checked hypotheses Accepted, Cycle): two different transactions that run in the same cycle satisfy, for every method both reach and every pair of call chains to it, "outermost common ancestor nonexclusive ∨ call paths exclusive" (calls_nonexclusive)
+-- OBLIGATION c01_no_joint_run : sentence 2 (under hypothesis Accepted (proved from the executable elaborate: Bridge.elaborate_static) and driver-checked per-cycle hypotheses Cycle): two different transactions that run in the same cycle satisfy, for every method both reach and every pair of call chains to it, "outermost common ancestor nonexclusive ∨ call paths exclusive" (calls_nonexclusive)
 theorem c01_no_joint_run (hA : Accepted D S) (hC : Cycle D v S run) {t1 t2 : Nat}
     (h1 : D.isTrans t1 = true) (h2 : D.isTrans t2 = true) (hne : t1 ≠ t2)
     (r1 : run t1 = true) (r2 : run t2 = true) :
@@ -94,7 +94,8 @@ one `If/Else`) has exactly one active site -/
 example : acceptedB Ex.D Ex.S = true ∧ cycleEagerB Ex.D Ex.v Ex.S Ex.run = true ∧
     cycleRRB Ex.D Ex.v Ex.S Ex.comp Ex.runRR = true ∧ Ex.D.SitesNodup ∧
     CallsPlaced Ex.D Ex.v Ex.cv [(0, Ex.tree)] ∧
-    (Ex.D.sitesOf 4).length = 3 ∧ (activeSites Ex.D Ex.v Ex.run 4).length = 1 := by decide
+    (Ex.D.sitesOf 4).length = 3 ∧ (activeSites Ex.D Ex.v Ex.run 4).length = 1 :=
+  ⟨Ex.accepted, Ex.cycleEager, Ex.cycleRR, by decide, Ex.callsPlaced, by decide, by decide⟩
 
 /-- non-vacuity (nonexclusive common ancestor, chains of depth 2): in the second example `T0` and `T1`
 both reach exclusive `M` (body 3) through nonexclusive `N`; the design is accepted without a
@@ -102,7 +103,8 @@ conflict edge, both transactions run together, and `M` has exactly one active ca
 example : accept Ex2.D Ex2.ord = true ∧ cgrOf Ex2.D 0 1 = false ∧ reachesB Ex2.D 0 3 = true ∧
     reachesB Ex2.D 1 3 = true ∧ cycleEagerB Ex2.D Ex2.v Ex2.S Ex2.run = true ∧
     cycleRRB Ex2.D Ex2.v Ex2.S (fun t => t) Ex2.run = true ∧
-    Ex2.run 0 = true ∧ Ex2.run 1 = true ∧ (activeSites Ex2.D Ex2.v Ex2.run 3).length = 1 := by decide
+    Ex2.run 0 = true ∧ Ex2.run 1 = true ∧ (activeSites Ex2.D Ex2.v Ex2.run 3).length = 1 :=
+  ⟨Ex2.accepted, by decide, by decide, by decide, Ex2.cycleEager, Ex2.cycleRR, rfl, rfl, by decide⟩
 
 end TxV.Core
 
